@@ -165,6 +165,26 @@ CTX2_QUICK = ["seq_left", "seq_right", "alt_abandon", "alt_second", "opt_abandon
 CTX2_LEAN = ["seq_right", "alt_abandon", "opt_abandon", "star_abandon", "not", "push", "prepushed"]
 
 
+def ctx2_specs(kmode, tier, terminals, trivs, names=None, sigma_core=SIGMA_CORE, extra_sigma="", max_inputs=45):
+    """Contexts composed with contexts (expressions of 6-12 nodes that the size-bounded enumeration cannot reach): outer(inner(terminal))."""
+    ctxs = contexts()
+    names = names or [c for c in ctxs if hasattr(ctxs[c], "expr")]
+    out = []
+    for tv in trivs:
+        sigma = sigma_core + TRIVIA_SIGMA[tv] + extra_sigma
+        ins = inputs(sigma, length_for(sigma, max_inputs))
+        rules_env = TRIVIA[tv] + HELPERS
+        for outer in names:
+            starts = []
+            for inner in names:
+                for t in terminals:
+                    body = ctxs[outer].expr(("grp", ctxs[inner].expr(t)))
+                    if gast.well_formed(rules_env + (("x", "", body),)):
+                        starts.append(((), ("", body)))
+            out.extend(batch_specs(starts, rules_env, ins, kmode, f"ctx2({outer},{tv})"))
+    return out
+
+
 def c01_bounds(tier: str, lean: bool = False):
     b = C01_BOUNDS[tier]
     if lean and tier == "quick":
@@ -222,20 +242,8 @@ def c01_specs(tier: str, kmode: str = "zero", terminals=T_FULL, soi_free: bool =
                         continue  # e.g. a repetition context around a nullable hole
                     starts.append((extra, start))
                 out.extend(batch_specs(starts, TRIVIA[tv] + HELPERS, ins, kmode, f"ctx({cname},hole<={hole_n},{tv})"))
-    # contexts composed with contexts (expressions of 6-12 nodes that the size-bounded enumeration cannot reach): outer(inner(terminal))
-    names = CTX2_LEAN if (lean and tier == "quick") else (CTX2_QUICK if tier == "quick" else [c for c in ctxs if hasattr(ctxs[c], "expr")])
-    for tv in (("none",) if tier == "quick" else ("none", "ws")):
-        sigma = (sigma_core or SIGMA_CORE) + TRIVIA_SIGMA[tv] + extra_sigma
-        ins = inputs(sigma, length_for(sigma, min(mi, 45)))
-        rules_env = TRIVIA[tv] + HELPERS
-        for outer in names:
-            starts = []
-            for inner in names:
-                for t in terminals:
-                    body = ctxs[outer].expr(("grp", ctxs[inner].expr(t)))
-                    if gast.well_formed(rules_env + (("x", "", body),)):
-                        starts.append(((), ("", body)))
-            out.extend(batch_specs(starts, rules_env, ins, kmode, f"ctx2({outer},{tv})"))
+    names = CTX2_LEAN if (lean and tier == "quick") else (CTX2_QUICK if tier == "quick" else None)
+    out.extend(ctx2_specs(kmode, tier, terminals, ("none",) if tier == "quick" else ("none", "ws"), names, (sigma_core or SIGMA_CORE), extra_sigma, min(mi, 45)))
     return out + extra_specs(kmode, tier)
 
 
